@@ -45,6 +45,7 @@ ASSUMPTIONS = [
 SIG_SHAPE = "retain/kept-array-compared-elementwise"
 SIG_GRID = "retain/nested/grid-backup-single-slot"
 SIG_MAT = "retain/component-scope/own-material-cache-leaks"
+SIG_DERIVED = "retain/derived-volume-stale-after-scope"
 # Known candidate defects are kept out of the search by construction (labels excluded:<sig>); a replay case may carry
 # "noexclude": true to reproduce them (replays/C16/defect_*.json).
 # all three were repaired in /repo (fix: commits d4f3b68, acb98ca, 92a38c4): the shapes are searched again
@@ -135,6 +136,9 @@ def _scope(depth):
     return st.fixed_dictionaries(
         {"scope": st.sampled_from(levels), "obj": st.integers(0, 10**6), "keep": _keep(), "inherit": st.booleans(),
          "keepnd": st.sampled_from([False, False, True]), "keeparr": st.one_of(st.none(), st.integers(0, 10**6)), "body": _body(depth),
+         # a sibling dimension of a block in the scope changes right BEFORE the scope opens (the derived-shape volume is then pending
+         # recomputation) and the derived volume is read first thing inside the scope
+         "predim": st.one_of(st.none(), st.none(), st.integers(0, 10**6)),
          # the body may end by an exception after ``raise`` items (modulo len + 1); it leaves this scope as a `with` block does and is
          # caught by the harness after passing through ``catch`` further enclosing scopes (the program then carries on there)
          "raise": st.one_of(st.none(), st.none(), st.none(), st.integers(0, 4)), "catch": st.sampled_from([0, 0, 1, 2])}
@@ -781,6 +785,62 @@ class Interp:
         self.counts["dim"] += 1
         self.check_links(c, d)
 
+    def derived_of(self, i):
+        from armi.reactor.components import DerivedShape
+
+        for c in self.objs[i]:
+            if isinstance(c, DerivedShape):
+                return c
+        return None
+
+    def pending_dimension_change(self, idx, k):
+        """Shrink one plain dimension of a sibling of the derived-shape component of a block inside subtree(idx); nobody reads the
+        derived volume afterwards.  Returns the block's index (None: no such block)."""
+        from armi.reactor.components import component as compmod
+
+        blocks = [i for i in self.subtree(idx) if self.level[i] == "block" and self.derived_of(i) is not None]
+        if not blocks:
+            return None
+        i = blocks[k % len(blocks)]
+        cands = []
+        for c in self.objs[i]:
+            if c is self.derived_of(i):
+                continue
+            for d in ("od", "op", "widthOuter"):
+                if d in c.DIMENSION_NAMES:
+                    v = c.p[d]
+                    if not isinstance(v, compmod._DimensionLink) and isinstance(v, (int, float)) and v > 0.0:
+                        cands.append((c, d))
+        if not cands:
+            return None
+        c, d = cands[k % len(cands)]
+        c.setDimension(d, c.p[d] * 0.985)
+        self.counts["dimension-changed-right-before-scope"] += 1
+        return i
+
+    def check_derived(self, frame, what):
+        """After a scope: the derived-shape component of every block in the scope serves the volume / area that follow from the
+        current (restored) state - compared with a recomputation forced through the block's own update flag."""
+        for i in self.subtree(frame.idx):
+            if self.level[i] != "block":
+                continue
+            d = self.derived_of(i)
+            b = self.objs[i]
+            if d is None or b.parent is None:
+                continue
+            try:
+                served = (float(d.getVolume()), float(d.getArea()))
+                b.derivedMustUpdate = True
+                fresh = (float(d.getVolume()), float(d.getArea()))
+            except (ValueError, ArithmeticError):  # the block's components do not fit any more (its own documented refusal)
+                self.counts["derived-not-computable"] += 1
+                continue
+            self.counts["derived-checked"] += 1
+            if any(abs(x - y) > 1e-10 * max(abs(x), abs(y)) for x, y in zip(served, fresh)):
+                self.out.fail(SIG_DERIVED, "%s: block %r serves derived-shape (%s) volume/area %r, recomputed from the restored dimensions %r"
+                              % (what, b.name, d.name, served, fresh))
+                raise Stop()
+
     def check_links(self, c, d):
         """Every sibling dimension linked to (c, d) resolves to c's current value."""
         from armi.reactor.components import component as compmod
@@ -802,6 +862,15 @@ class Interp:
 
     def op_cache(self, op, base):
         how = op["n"] % 6
+        if how == 1 and self.level[0] == "reactor":
+            i = self.pick("block", op["obj"], base, pred=lambda b: b.parent is not None and any(type(c).__name__ == "DerivedShape" for c in b))
+            if i is not None:
+                try:
+                    self.derived_of(i).getVolume()
+                    self.counts["cache:derived-volume"] += 1
+                except (ValueError, ArithmeticError):
+                    self.counts["derived-not-computable"] += 1
+                return
         if how in (0, 1):
             i = self.pick("block", op["obj"], base, pred=lambda b: b.parent is not None)
             if i is not None and self.root is self.objs[0] and self.level[0] == "reactor":
@@ -931,6 +1000,9 @@ class Interp:
                 idx = base
         obj = self.objs[idx]
         depth = len(self.frames) + 1
+        pending = None
+        if item.get("predim") is not None:
+            pending = self.pending_dimension_change(idx, item["predim"])
         # known defect: a grid that changed since the enclosing scope began loses that scope's backup when a nested scope
         # covering it is opened (single backup slot)
         # (grids are tracked by identity: Cartesian blocks share the grid object of their core)
@@ -996,6 +1068,9 @@ class Interp:
         ctx = obj.retainState(list(frame.defs))
         ctx.__enter__()
         self.frames.append(frame)
+        if pending is not None:
+            self.derived_of(pending).getVolume()
+            self.counts["derived-read-in-scope-while-pending"] += 1
         err = None
         try:
             raise_at = None if item.get("raise") is None else item["raise"] % (len(item["body"]) + 1)
@@ -1085,6 +1160,7 @@ class Interp:
         self.counts["exits"] += 1
         if bad:
             raise Stop()
+        self.check_derived(frame, "after leaving scope #%d (depth %d) on %s %r" % (self.counts["exits"] - 1, depth, self.level[idx], obj.name))
         if err is not None and err.levels > 0 and self.frames:
             err.levels -= 1
             self.counts["exception-through-enclosing-scope"] += 1
